@@ -154,12 +154,331 @@ func (in *Interp) restoreInto(b *opaqueBlob, target Value) Value {
 			// encoded x, decoded into *x (pointer target): allocate
 			o := in.newObject(b.typ, val, "decoded")
 			in.store(tp, Ptr{obj: o})
+		} else if pv, ok := in.projectStruct(b.typ, val, et); ok {
+			// a different struct type (partial projection): CBOR map keys matched by name
+			in.store(tp, pv)
 		} else {
-			// a different (projection) type: the codec's field matching is not modelled
-			in.unsupported("opaque codec: decode of " + b.typ.String() + " into " + et.String() + " (projection decoding is outside the model)")
+			in.unsupported("opaque codec: decode of " + b.typ.String() + " into " + et.String() + " (outside the projection model)")
 		}
 	}
 	return Iface{}
+}
+
+// cborUint: unsigned integers are encoded for real (RFC 8949 major type 0, shortest form) because
+// they are used as database keys, where equal values must give equal bytes.
+func (in *Interp) cborUint(v Value) ([]*Term, bool) {
+	iv, ok := v.(Iface)
+	if !ok || iv.t == nil {
+		return nil, false
+	}
+	b, ok := iv.t.Underlying().(*types.Basic)
+	if !ok || b.Info()&types.IsUnsigned == 0 {
+		return nil, false
+	}
+	t, ok := iv.v.(*Term)
+	if !ok {
+		return nil, false
+	}
+	st := in.st
+	x := st.ZExt(t, 64)
+	be := func(n int) []*Term {
+		out := make([]*Term, n)
+		for i := 0; i < n; i++ {
+			out[i] = st.Extract(x, 8*(n-i)-1, 8*(n-i-1))
+		}
+		return out
+	}
+	switch {
+	case in.branch(st.Cmp(OpULt, x, st.Const(64, 24))):
+		return []*Term{st.Extract(x, 7, 0)}, true
+	case in.branch(st.Cmp(OpULt, x, st.Const(64, 1<<8))):
+		return append([]*Term{st.Const(8, 0x18)}, be(1)...), true
+	case in.branch(st.Cmp(OpULt, x, st.Const(64, 1<<16))):
+		return append([]*Term{st.Const(8, 0x19)}, be(2)...), true
+	case in.branch(st.Cmp(OpULt, x, st.Const(64, 1<<32))):
+		return append([]*Term{st.Const(8, 0x1a)}, be(4)...), true
+	}
+	return append([]*Term{st.Const(8, 0x1b)}, be(8)...), true
+}
+
+// cborUintDecode is the inverse of cborUint for a target *uintN.
+func (in *Interp) cborUintDecode(bs []*Term, target Value) (bool, Value) {
+	tv, ok := target.(Iface)
+	if !ok || tv.t == nil || len(bs) == 0 {
+		return false, nil
+	}
+	pt, ok := tv.t.Underlying().(*types.Pointer)
+	if !ok {
+		return false, nil
+	}
+	bt, ok := pt.Elem().Underlying().(*types.Basic)
+	if !ok || bt.Info()&types.IsUnsigned == 0 {
+		return false, nil
+	}
+	st := in.st
+	h := bs[0]
+	var val *Term
+	switch {
+	case h.IsConst() && h.c >= 0x18 && h.c <= 0x1b:
+		n := 1 << (h.c - 0x18)
+		if len(bs) != 1+n {
+			return false, nil
+		}
+		val = bs[1]
+		for i := 2; i <= n; i++ {
+			val = st.Concat(val, bs[i])
+		}
+	case len(bs) == 1 && (!h.IsConst() || h.c < 24):
+		if !in.branch(st.Cmp(OpULt, h, st.Const(8, 24))) {
+			return false, nil
+		}
+		val = h
+	default:
+		return false, nil
+	}
+	w := basicWidth(bt)
+	in.store(tv.v.(Ptr), st.ZExt(val, w))
+	return true, Iface{}
+}
+
+// ---- projection decoding ----
+//
+// A struct is encoded as a CBOR map keyed by field name (or the name given in the `cbor:"..."` tag);
+// decoding that map into a different struct type fills the target fields whose key occurs in the
+// map and leaves the others zero. Key resolution follows the encoding/json rules that the codec
+// implements: embedded structs are flattened, the shallowest field wins a key, at equal depth a
+// single tagged field wins, otherwise the key is dropped.
+
+type cborField struct {
+	path   []int
+	depth  int
+	tagged bool
+	typ    types.Type
+}
+
+func cborKeyOf(f *types.Var, tag string) (name string, tagged, skip, embedded bool) {
+	name = f.Name()
+	if tv, ok := lookupTag(tag, "cbor"); ok {
+		parts := strings.Split(tv, ",")
+		if parts[0] == "-" && len(parts) == 1 {
+			return "", false, true, false
+		}
+		for _, o := range parts[1:] {
+			if o == "toarray" || o == "keyasint" {
+				return "", false, true, false
+			}
+		}
+		if parts[0] != "" {
+			return parts[0], true, false, false
+		}
+	}
+	if f.Embedded() {
+		if _, ok := derefType(f.Type()).Underlying().(*types.Struct); ok {
+			return name, false, false, true
+		}
+	}
+	return name, false, false, false
+}
+
+func lookupTag(tag, key string) (string, bool) {
+	for tag != "" {
+		i := 0
+		for i < len(tag) && tag[i] == ' ' {
+			i++
+		}
+		tag = tag[i:]
+		if tag == "" {
+			break
+		}
+		i = 0
+		for i < len(tag) && tag[i] > ' ' && tag[i] != ':' && tag[i] != '"' {
+			i++
+		}
+		if i == 0 || i+1 >= len(tag) || tag[i] != ':' || tag[i+1] != '"' {
+			break
+		}
+		name := tag[:i]
+		tag = tag[i+1:]
+		i = 1
+		for i < len(tag) && tag[i] != '"' {
+			if tag[i] == '\\' {
+				i++
+			}
+			i++
+		}
+		if i >= len(tag) {
+			break
+		}
+		qv := tag[:i+1]
+		tag = tag[i+1:]
+		if name == key {
+			v, err := strconv.Unquote(qv)
+			if err != nil {
+				return "", false
+			}
+			return v, true
+		}
+	}
+	return "", false
+}
+
+func derefType(t types.Type) types.Type {
+	if p, ok := t.Underlying().(*types.Pointer); ok {
+		return p.Elem()
+	}
+	return t
+}
+
+// cborFields flattens a struct type into its CBOR map keys; ok=false when the layout is outside the model.
+func cborFields(st *types.Struct) (map[string]cborField, bool) {
+	type cand struct {
+		cborField
+		name string
+	}
+	var all []cand
+	ok := true
+	var walk func(s *types.Struct, prefix []int, depth int)
+	walk = func(s *types.Struct, prefix []int, depth int) {
+		for i := 0; i < s.NumFields(); i++ {
+			f := s.Field(i)
+			if !f.Exported() && !f.Embedded() {
+				continue
+			}
+			name, tagged, skip, emb := cborKeyOf(f, s.Tag(i))
+			if skip {
+				if tv, has := lookupTag(s.Tag(i), "cbor"); has && tv != "-" {
+					ok = false // toarray / keyasint
+				}
+				continue
+			}
+			path := append(append([]int{}, prefix...), i)
+			if emb {
+				if _, isPtr := f.Type().Underlying().(*types.Pointer); isPtr {
+					ok = false // embedded pointer: not needed so far
+					continue
+				}
+				walk(f.Type().Underlying().(*types.Struct), path, depth+1)
+				continue
+			}
+			all = append(all, cand{cborField{path: path, depth: depth, tagged: tagged, typ: f.Type()}, name})
+		}
+	}
+	walk(st, nil, 0)
+	out := map[string]cborField{}
+	byName := map[string][]cand{}
+	for _, c := range all {
+		byName[c.name] = append(byName[c.name], c)
+	}
+	for name, cs := range byName {
+		min := cs[0].depth
+		for _, c := range cs {
+			if c.depth < min {
+				min = c.depth
+			}
+		}
+		var top []cand
+		for _, c := range cs {
+			if c.depth == min {
+				top = append(top, c)
+			}
+		}
+		if len(top) > 1 {
+			var tg []cand
+			for _, c := range top {
+				if c.tagged {
+					tg = append(tg, c)
+				}
+			}
+			if len(tg) != 1 {
+				continue // ambiguous: no field owns the key
+			}
+			top = tg
+		}
+		out[name] = top[0].cborField
+	}
+	return out, ok
+}
+
+func hasMethod(t types.Type, name string) bool {
+	for _, tt := range []types.Type{t, types.NewPointer(t)} {
+		ms := types.NewMethodSet(tt)
+		for i := 0; i < ms.Len(); i++ {
+			if ms.At(i).Obj().Name() == name {
+				return true
+			}
+		}
+	}
+	return false
+}
+
+// projectStruct decodes the snapshot `val` of encoded type srcT into a value of type dstT.
+func (in *Interp) projectStruct(srcT types.Type, val Value, dstT types.Type) (Value, bool) {
+	// encoded &x -> x
+	if sp, ok := srcT.Underlying().(*types.Pointer); ok {
+		p, isPtr := val.(Ptr)
+		if !isPtr || p.obj == nil {
+			return nil, false
+		}
+		val = in.load(p)
+		srcT = sp.Elem()
+	}
+	ss, ok1 := srcT.Underlying().(*types.Struct)
+	ds, ok2 := dstT.Underlying().(*types.Struct)
+	if !ok1 || !ok2 || isFeltType(srcT) || isFeltType(dstT) {
+		return nil, false
+	}
+	if hasMethod(srcT, "MarshalCBOR") || hasMethod(dstT, "UnmarshalCBOR") {
+		return nil, false
+	}
+	sf, okS := cborFields(ss)
+	df, okD := cborFields(ds)
+	if !okS || !okD {
+		return nil, false
+	}
+	out := in.zero(dstT)
+	for key, d := range df {
+		s, present := sf[key]
+		if !present {
+			continue
+		}
+		if n, isNamed := d.typ.(*types.Named); isNamed && n.Obj().Name() == "discardedCBOR" {
+			continue // decode-only skip marker: UnmarshalCBOR ignores the bytes
+		}
+		sv := in.getPath(val, s.path)
+		var nv Value
+		switch {
+		case types.Identical(s.typ, d.typ):
+			nv = sv
+		case func() bool { p, ok := s.typ.Underlying().(*types.Pointer); return ok && types.Identical(p.Elem(), d.typ) }():
+			p := sv.(Ptr)
+			if p.obj == nil {
+				continue // null into a non-pointer field leaves it zero
+			}
+			nv = in.load(p)
+		case func() bool { p, ok := d.typ.Underlying().(*types.Pointer); return ok && types.Identical(p.Elem(), s.typ) }():
+			o := in.newObject(s.typ, sv, "decoded")
+			nv = Ptr{obj: o}
+		default:
+			if hasMethod(d.typ, "UnmarshalCBOR") || hasMethod(s.typ, "MarshalCBOR") {
+				return nil, false
+			}
+			if _, isStruct := derefType(d.typ).Underlying().(*types.Struct); isStruct {
+				inner, ok := in.projectStruct(s.typ, sv, derefType(d.typ))
+				if !ok {
+					return nil, false
+				}
+				if _, isPtr := d.typ.Underlying().(*types.Pointer); isPtr {
+					nv = Ptr{obj: in.newObject(derefType(d.typ), inner, "decoded")}
+				} else {
+					nv = inner
+				}
+			} else {
+				return nil, false
+			}
+		}
+		out = in.setPath(out, d.path, nv)
+	}
+	return out, true
 }
 
 func init() {
@@ -168,12 +487,18 @@ func init() {
 		return nil
 	})
 	reg(encPkg+"Marshal", func(in *Interp, c *Frame, fn *ssa.Function, a []Value) Value {
+		if bs, ok := in.cborUint(a[0]); ok {
+			return Tuple{in.bytesToSlice(bs), Iface{}}
+		}
 		return Tuple{in.bytesToSlice(in.newBlob(a[0])), Iface{}}
 	})
 	reg(encPkg+"Unmarshal", func(in *Interp, c *Frame, fn *ssa.Function, a []Value) Value {
 		bs := in.sliceBytes(a[0])
 		b, ok := in.matchBlob(bs)
 		if !ok || b.n != len(bs) {
+			if done, res := in.cborUintDecode(bs, a[1]); done {
+				return res
+			}
 			return in.newErrorString("cbor: data is not exactly one encoded item (opaque model)")
 		}
 		return in.restoreInto(b, a[1])
